@@ -107,6 +107,17 @@ def lean_files(sub):
 # ------------------------------------------------------------------ running scripts
 OPID = re.compile(r"(?<![0-9])1[0-9]{18}(?![0-9])")
 
+def mask_hex_ids(h):
+    """in a hex dump, a run of 16 or more ASCII digits (an operation id inside a key name or a conflict notice) -> <id>"""
+    if len(h) % 2: return h
+    out = []; run = []
+    for i in range(0, len(h), 2):
+        b = h[i:i + 2]
+        if b[0] == "3" and b[1] in "0123456789": run.append(b); continue
+        out.append("<id>" if len(run) >= 16 else "".join(run)); run = []; out.append(b)
+    out.append("<id>" if len(run) >= 16 else "".join(run))
+    return "".join(out)
+
 def canon_case(lines):
     tbl = {}
     def r(m):
@@ -116,6 +127,11 @@ def canon_case(lines):
     out = []
     for l in lines:
         if l.startswith("> RESET"): tbl.clear()
+        # the echoed `SNAP order=…` annotation carries the IMPLEMENTATION's ids on both sides (it is input to the model): it takes no part
+        # in the renaming of ids by first appearance, and is compared as text
+        if l.startswith("> SNAP order=") or l.startswith("> CRASHLOAD "): out.append(OPID.sub("#id", l)); continue
+        if l.startswith("F ") and l.count(" ") >= 2:
+            p = l.split(" ", 2); l = f"{p[0]} {p[1]} {mask_hex_ids(p[2])}"
         out.append(OPID.sub(r, l))
     return out
 
